@@ -288,6 +288,7 @@ def run_task(task):
         _valid_data(task, rec)
     elif part == 'valid_literals':
         _valid_literals(rec)
+        _valid_status(rec)
     elif part == 'emptied':
         _emptied(task, rec)
     elif part == 'missing':
@@ -631,6 +632,40 @@ def _valid_literals(rec):
                     if not ok:
                         rec.violation(f'C12|valid-specification-wrong-value|number-literal-of-type:{tname}',
                                       f'x {op} {tname}(2) ({side}, {partner}): {got} expected {want}', case)
+
+
+def _valid_status(rec):
+    """The status of a parameter (0 = to be estimated, anything else = fixed) written under every type an 'int' may take in
+    Python: int, bool (a subclass of int), numpy integers; the formula is accepted, evaluates to its value, and the parameter is
+    free / fixed accordingly."""
+    import numpy as np
+    import biogeme.expressions as ex
+    from vf.engine import make_db, is_engine_error
+    from biogeme.expressions.elementary_types import TypeOfElementaryExpression as T
+    rows = [dict(x=1.0), dict(x=-2.0)]
+    for sname, status, fixed in (('int-0', 0, False), ('int-1', 1, True), ('int-2', 2, True), ('bool-False', False, False),
+                                 ('bool-True', True, True), ('numpy-int64-1', np.int64(1), True), ('numpy-int64-0', np.int64(0), False),
+                                 ('numpy-bool-True', np.bool_(True), True)):
+        case = dict(part='valid_status', status=sname)
+        key = ('valid_status', sname)
+        try:
+            b = ex.Beta('bs', 0.75, None, None, status)
+            e = b * ex.Variable('x') + 0.5
+            got = [float(v) for v in e.get_value_c(database=make_db(rows, ['x']), prepare_ids=True)]
+            free = sorted(e.set_of_elementary_expression(T.FREE_BETA))
+        except Exception as exc:
+            rec.case(key, (sname, type(exc).__name__), outcome='rejected')
+            rec.violation(f'C12|valid-specification-rejected-{type(exc).__name__}|parameter-status-of-type:{sname}',
+                          f'Beta("bs", 0.75, None, None, {status!r}) * x + 0.5: {type(exc).__name__}: {str(exc)[:160]}', case)
+            if is_engine_error(exc):
+                rec.retire = True
+                return
+            continue
+        ok = got == [1.25, -1.0] and free == ([] if fixed else ['bs'])
+        rec.case(key, (sname, got, free), outcome=('accepted', ok))
+        if not ok:
+            rec.violation(f'C12|valid-specification-wrong-value|parameter-status-of-type:{sname}',
+                          f'status {status!r}: values {got} (expected [1.25, -1.0]), free parameters {free}', case)
 
 
 def _valid_data(task, rec):
@@ -1296,6 +1331,7 @@ def replay(case):
         _valid_data(case, rec)
     elif part == 'valid_literals':
         _valid_literals(rec)
+        _valid_status(rec)
     elif part == 'structural_nodb':
         _structural_nodb(rec)
     elif part == 'missing_model':
